@@ -364,4 +364,100 @@ theorem claimIncoming_succeeds {s : State} {id : Id} {c : Contract} {d n a secre
     rw [← hamt]; exact hb
   simp [stepClaim, hid, hsec, hget, hopen, claimFunds, ht, hdir, hamt, claimIncoming, hsup, hni, ha, hfit, hb']
 
+
+/-! ### the time-limited supply moves only by incoming claims (and by the window update) -/
+
+/-- amount an accepted claim of `c` adds to the time-limited current supply of denom `d` -/
+def tlAdd (s : State) (c : Contract) (d : Denom) : Nat :=
+  if c.transfer && c.direction == .incoming && ((findAsset s.params d).map (·.timeLimited)).getD false
+  then coinAmt c.amount d else 0
+
+theorem tl_stepClaim {s s' : State} {id secret lk} (hs : Inv s) (h : stepClaim s id secret lk = .ok s') :
+    ∃ c, AMap.get? s.htlcs id = some c ∧ ∀ d,
+      (supOf s' d).elapsed = (supOf s d).elapsed ∧
+      (supOf s' d).tlCurrent = (supOf s d).tlCurrent + tlAdd s c d := by
+  obtain ⟨c, s1, hget, hopen, _, hf, rfl⟩ := stepClaim_ok h
+  obtain ⟨hsnd, hwt, hwp⟩ := hs.1.2 id c hget
+  refine ⟨c, hget, ?_⟩
+  rcases claimFunds_ok hf with ⟨ht, b, hb, rfl⟩ | ⟨ht, hdir, d0, n, r, hamt, hci⟩ | ⟨ht, hdir, d0, n, r, hamt, hco⟩
+  · intro d; simp [tlAdd, ht, supOf, close]
+  · obtain ⟨d1, n1, ha1, _, _⟩ := hwt ht
+    rw [ha1] at hamt; cases hamt
+    obtain ⟨sup, a, b, hsup, hin, ha, hfit, hb, rfl⟩ := claimIncoming_ok hci
+    intro d
+    simp only [supOf, close, getS?_set, tlAdd, ht, hdir, ha1, coinAmt_single]
+    by_cases e : d0 = d
+    · subst e
+      simp only [if_true, Option.getD_some, hsup, supAfterClaimIn, ha, Option.map_some]
+      cases a.timeLimited <;> simp
+    · simp [e]
+  · obtain ⟨sup, b, hsup, hout, hcur, hb, rfl⟩ := claimOutgoing_ok hco
+    intro d
+    simp only [supOf, close, getS?_set, tlAdd, ht, hdir]
+    by_cases e : d0 = d
+    · subst e; simp [hsup]
+    · simp [e]
+
+theorem tl_stepCreate {s s' : State} {id sender to coins lock ts tl transfer}
+    (h : stepCreate s id sender to coins lock ts tl transfer = .ok s') (d : Denom) :
+    (supOf s' d).elapsed = (supOf s d).elapsed ∧ (supOf s' d).tlCurrent = (supOf s d).tlCurrent ∧
+    (supOf s' d).current = (supOf s d).current := by
+  obtain ⟨_, _, hfresh, hb⟩ := stepCreate_ok h
+  cases transfer with
+  | false => obtain ⟨b, _, rfl⟩ := createPlain_ok hb; exact ⟨rfl, rfl, rfl⟩
+  | true =>
+    simp only [if_true] at hb
+    obtain ⟨d0, n, a, _, ha, _, _, _, _, hcase⟩ := createHTLT_ok hb
+    rcases hcase with ⟨_, _, hc⟩ | ⟨_, _, hc⟩
+    · obtain ⟨sup, hsup, hfit, rfl⟩ := createIncoming_ok hc
+      simp only [supOf, record, getS?_set]
+      by_cases e : d0 = d
+      · subst e; simp [hsup]
+      · simp [e]
+    · obtain ⟨sup, b, hsup, _, _, _, _, _, rfl⟩ := createOutgoing_ok hc
+      simp only [supOf, record, getS?_set]
+      by_cases e : d0 = d
+      · subst e; simp [hsup]
+      · simp [e]
+
+/-! ### a right secret is accepted: plain and outgoing contracts -/
+
+theorem claimPlain_succeeds {s : State} {id : Id} {c : Contract} {secret}
+    (hs : Inv s) (hget : AMap.get? s.htlcs id = some c) (hopen : c.state = .open)
+    (ht : c.transfer = false) (hid : hexOk64 id = true) (hsec : hexOk64 secret = true) :
+    ∃ s', stepClaim s id secret c.hashLock = .ok s' := by
+  have hle : ∀ d, coinAmt c.amount d ≤ Bank.balOf s.bank escrow d := by
+    intro d
+    have := escrowAmt_le hs.2.2.1 hget d
+    simpa [escrowAmt, escrowed, hopen, ht] using this
+  obtain ⟨b, hb⟩ := sendOk_succeeds s.bank escrow c.to c.amount hle
+  simp [stepClaim, hid, hsec, hget, hopen, claimFunds, ht, hb]
+
+theorem claimOutgoing_succeeds {s : State} {id : Id} {c : Contract} {secret}
+    (hs : Inv s) (hget : AMap.get? s.htlcs id = some c) (hopen : c.state = .open)
+    (ht : c.transfer = true) (hdir : c.direction = .outgoing)
+    (hid : hexOk64 id = true) (hsec : hexOk64 secret = true) :
+    ∃ s', stepClaim s id secret c.hashLock = .ok s' := by
+  obtain ⟨hwf, hq, hge, hcnt⟩ := hs
+  obtain ⟨_, hwt, _⟩ := hwf.2 id c hget
+  obtain ⟨d, n, hamt, _, hsome⟩ := hwt ht
+  obtain ⟨sup, hsup⟩ := Option.isSome_iff_exists.mp hsome
+  have hso : supOf s d = sup := by simp [supOf, hsup]
+  have hn : n ≤ sup.outgoing := by
+    have h1 := (hcnt d).2.1
+    have h2 := le_sumBy (dirAmt .open .outgoing d) s.htlcs id c hget
+    rw [hso] at h1
+    simp [dirAmt, ht, hopen, hdir, hamt, coinAmt] at h2
+    unfold sumDir at h1; omega
+  have hc : sup.outgoing ≤ sup.current := by have := (hcnt d).2.2.2; rw [hso] at this; exact this
+  have hle : ∀ d', coinAmt c.amount d' ≤ Bank.balOf s.bank escrow d' := by
+    intro d'
+    have := escrowAmt_le hge hget d'
+    simpa [escrowAmt, escrowed, hopen, ht, hdir] using this
+  obtain ⟨b, hb⟩ := burnCoins_succeeds s.bank escrow c.amount hle
+  have hb' : burnCoins s.bank escrow [(d, n)] = some b := by rw [← hamt]; exact hb
+  have h1 : ¬ (sup.outgoing < n) := by omega
+  have h2 : ¬ (sup.current < n) := by omega
+  simp [stepClaim, hid, hsec, hget, hopen, claimFunds, ht, hdir, hamt, claimOutgoing, hsup, h1, h2, hb']
+
 end Irismod.Proofs.Htlc
